@@ -293,7 +293,7 @@ class ParsecStream(Stream):
         ]
 
     def gen(self, rng, tier):
-        n = 150 if tier == "quick" else 4000
+        n = 150 if tier == "quick" else 3000
         return [_gen_case(rng, KINDS[i % len(KINDS)]) for i in range(n)]
 
     def impl(self, cases):
